@@ -219,14 +219,14 @@ func verifInitInvoke(nExt int, subs []string, nInv int, nInt int) {
 	verifReach("done")
 }
 
-func VerifC03Init0()     { verifInitInvoke(0, nil, 1, 0) }
-func VerifC03Init1I()    { verifInitInvoke(1, []string{"I"}, 1, 0) }
-func VerifC03Init1N()    { verifInitInvoke(1, []string{""}, 1, 0) }
-func VerifC03Init2IS()   { verifInitInvoke(2, []string{"I", "S"}, 1, 0) }
-func VerifC03Init1I1()   { verifInitInvoke(1, []string{"I"}, 1, 1) }
-func VerifC03Init0I1()   { verifInitInvoke(0, nil, 1, 1) }
-func VerifC03Init3()     { verifInitInvoke(3, []string{"I", "S", ""}, 1, 0) }
-func VerifC04Invoke2_1() { verifInitInvoke(1, []string{"IS"}, 2, 0) }
-func VerifC04Invoke2_2() { verifInitInvoke(2, []string{"I", ""}, 2, 0) }
-func VerifC04Invoke3_1() { verifInitInvoke(1, []string{"I"}, 3, 0) }
+func VerifC03Init0()      { verifInitInvoke(0, nil, 1, 0) }
+func VerifC03Init1I()     { verifInitInvoke(1, []string{"I"}, 1, 0) }
+func VerifC03Init1N()     { verifInitInvoke(1, []string{""}, 1, 0) }
+func VerifC03Init2IS()    { verifInitInvoke(2, []string{"I", "S"}, 1, 0) }
+func VerifC03Init1I1()    { verifInitInvoke(1, []string{"I"}, 1, 1) }
+func VerifC03Init0I1()    { verifInitInvoke(0, nil, 1, 1) }
+func VerifC03Init3()      { verifInitInvoke(3, []string{"I", "S", ""}, 1, 0) }
+func VerifC04Invoke2_1()  { verifInitInvoke(1, []string{"IS"}, 2, 0) }
+func VerifC04Invoke2_2()  { verifInitInvoke(2, []string{"I", ""}, 2, 0) }
+func VerifC04Invoke3_1()  { verifInitInvoke(1, []string{"I"}, 3, 0) }
 func VerifC04Invoke2_I1() { verifInitInvoke(1, []string{"I"}, 2, 1) }
